@@ -70,6 +70,9 @@ func layoutDirs(layout string, ts []string) map[string]string {
 			} else {
 				dirs[t] = dirs[ts[k-1]] + "/" + []string{"test", "include", "main", "src", "gen"}[k%5]
 			}
+		case "prefix-siblings":
+			// names that are string prefixes of one another, longer on the earlier target
+			dirs[t] = "gen" + strings.Repeat("_x", len(ts)-1-k)
 		default:
 			dirs[t] = targetDir[t]
 		}
@@ -234,8 +237,17 @@ func c13CLI(c *Ctx, n int) error {
 		if i%12 == 5 {
 			c.ev.Fire("big_program", 1)
 		}
+		targets := AllTargets
+		if i%6 == 3 {
+			// a program without packets: only the per-packet targets survive it
+			prog = GenDegenerate(seed)
+			targets = [][]string{{"rust"}, {"go"}, {"java"}, {"rust", "go"}, {"rust", "go", "java"}}[r.Intn(5)]
+			c.ev.Fire("degenerate_program", 1)
+		} else if r.Chance(1, 3) {
+			targets = randomHistorySorted(r)
+		}
 		text := prog.Render()
-		argv := compileArgv(AllTargets, r.Chance(1, 2), r.Chance(1, 2), r.Chance(1, 3))
+		argv := compileArgv(targets, r.Chance(1, 2), r.Chance(1, 2), r.Chance(1, 3))
 		mkWorld := func(cfg SchedConfig) *CLIWorld {
 			return &CLIWorld{Argv: argv, Disk0: []DiskEntry{{Path: "in.dsl", Kind: "file", Data: []byte(text)}}, Sched: cfg}
 		}
